@@ -2,6 +2,7 @@ package rules
 
 import (
 	"fmt"
+	"go/constant"
 	"go/token"
 	"go/types"
 	"sort"
@@ -495,9 +496,11 @@ func c08inheritOnly(c *Ctx, pkg string) {
 						if !isIf {
 							continue
 						}
-						call, isCall := br.Cond.(*ssa.Call)
-						if isCall && strings.HasSuffix(calleeName(call.Common()), "fieldOptionsWithContext).inherit") && id.Succs[0].Dominates(b) && len(id.Succs[0].Preds) == 1 {
-							ok = true
+						for _, cj := range conjuncts(br.Cond) {
+							call, isCall := cj.(*ssa.Call)
+							if isCall && strings.HasSuffix(calleeName(call.Common()), "fieldOptionsWithContext).inherit") && id.Succs[0].Dominates(b) && len(id.Succs[0].Preds) == 1 {
+								ok = true
+							}
 						}
 					}
 					if ok {
@@ -573,4 +576,169 @@ func c08noSharedContainers(c *Ctx, pkg string) {
 	}
 	sort.Strings(bad)
 	c.R.Check(len(bad) == 0, rule, pkg+"#shared-containers", "package-level maps and slices of the package are only read in place (lookup, range, len): none is handed to the filling path, stored or returned", "-", fmt.Sprintf("%d loads of package-level containers; %s", loads, strings.Join(bad, "; ")), bad, loads+1)
+}
+
+// c08validBeforeUse (R6c, round 6): reflect.ValueOf(nil) is the zero Value, and every method except Kind, IsValid and
+// String panics on it. Inside core/mapping, a method call on reflect.ValueOf(v) — v an `any` that comes from the
+// document (a parameter or a container element) — is dominated by a test that implies the Value is valid: the true
+// outcome of rv.Kind() == K / a switch case on rv.Kind(), rv.IsValid(), or v != nil. Decided where the function itself
+// shows that the value may be of another kind (the call lies on the failing side of a kind test on the same Value) —
+// the contradiction form of the rule; elsewhere callers may guarantee validity. The classic slip is the error
+// hint on the *failing* side of the kind test: `if rv.Kind() != reflect.Slice { …rv.Type().String()… }` panics for
+// a null (`{"m":{"k":null}}` into map[string][]string).
+func c08validBeforeUse(c *Ctx, pkg string) {
+	rule := "C08.R6"
+	var bad []string
+	sites := 0
+	safe := map[string]bool{"Kind": true, "IsValid": true, "String": true}
+	for _, f := range c.P.AllFuncs(pkg) {
+		for _, b := range f.Blocks {
+			for _, ins := range b.Instrs {
+				call, ok := ins.(*ssa.Call)
+				if !ok || call.Call.IsInvoke() {
+					continue
+				}
+				sc := call.Call.StaticCallee()
+				if sc == nil || sc.Signature.Recv() == nil || typeString(sc.Signature.Recv().Type()) != "reflect.Value" || safe[sc.Name()] {
+					continue
+				}
+				rv, ok := call.Call.Args[0].(*ssa.Call)
+				if !ok || calleeName(rv.Common()) != "reflect.ValueOf" {
+					continue
+				}
+				src := rv.Call.Args[0]
+				if mi, ok := src.(*ssa.MakeInterface); ok {
+					_ = mi
+					continue // a concrete value boxed here is never nil-interface
+				}
+				if _, isParam := src.(*ssa.Parameter); !isParam {
+					continue
+				}
+				// a dominating validity test / a dominating failed kind test
+				valid, failedKind := false, false
+				for d := b; d != nil && !valid; d = d.Idom() {
+					id := d.Idom()
+					if id == nil || len(id.Instrs) == 0 {
+						continue
+					}
+					br, isIf := id.Instrs[len(id.Instrs)-1].(*ssa.If)
+					if !isIf {
+						continue
+					}
+					onTrue := (id.Succs[0] == d || id.Succs[0].Dominates(b)) && len(id.Succs[0].Preds) == 1
+					onFalse := (id.Succs[1] == d || id.Succs[1].Dominates(b)) && len(id.Succs[1].Preds) == 1
+					switch cnd := br.Cond.(type) {
+					case *ssa.BinOp:
+						isKindOf := func(v ssa.Value) bool {
+							kc, ok := v.(*ssa.Call)
+							return ok && calleeName(kc.Common()) == "(reflect.Value).Kind" && kc.Call.Args[0] == rv
+						}
+						nonInvalid := func(v ssa.Value) bool {
+							k, ok := v.(*ssa.Const)
+							return ok && k.Value != nil && k.Int64() != 0
+						}
+						isNil := func(v ssa.Value) bool { k, ok := v.(*ssa.Const); return ok && k.IsNil() }
+						if (isKindOf(cnd.X) && nonInvalid(cnd.Y)) || (isKindOf(cnd.Y) && nonInvalid(cnd.X)) {
+							if (cnd.Op == token.EQL && onTrue) || (cnd.Op == token.NEQ && onFalse) {
+								valid = true
+							}
+							if (cnd.Op == token.EQL && onFalse) || (cnd.Op == token.NEQ && onTrue) {
+								failedKind = true
+							}
+						}
+						if (cnd.X == src && isNil(cnd.Y)) || (cnd.Y == src && isNil(cnd.X)) {
+							if (cnd.Op == token.NEQ && onTrue) || (cnd.Op == token.EQL && onFalse) {
+								valid = true
+							}
+						}
+					case *ssa.Call:
+						if calleeName(cnd.Common()) == "(reflect.Value).IsValid" && cnd.Call.Args[0] == rv && onTrue {
+							valid = true
+						}
+					}
+				}
+				if !failedKind {
+					continue // decided only where the function itself shows the value may be of another kind
+				}
+				sites++
+				if !valid {
+					bad = append(bad, fmt.Sprintf("%s: %s calls (reflect.Value).%s on reflect.ValueOf(%s) on the failing side of its kind test, where the value may be the zero Value (a null in the document): reflect panics", c.P.Pos(call.Pos()), funcDisplay(f), sc.Name(), src.Name()))
+				}
+			}
+		}
+	}
+	sort.Strings(bad)
+	c.R.Check(len(bad) == 0, rule, pkg+"#valid-before-use", "a method that panics on the zero reflect.Value is called on reflect.ValueOf(document value) only under an outcome that implies validity", "-", fmt.Sprintf("%d sites; %s", sites, strings.Join(bad, "; ")), bad, sites+1)
+}
+
+// c08durationByType (R14, round 6): a member is treated as a duration because of its *type*. Every call of
+// fillDurationValue (which stores a time.Duration with reflect.Set) lies on the true outcome of a comparison of a
+// reflect.Type with durationType. A test on the kind (`case durationType.Kind():` — that is reflect.Int64) sends every
+// int64 member down the duration path: a plain number is rejected ("missing unit in duration") and a duration text
+// makes reflect.Set panic.
+func c08durationByType(c *Ctx, pkg string) {
+	rule := "C08.R14"
+	var bad []string
+	sites := 0
+	for _, f := range c.P.AllFuncs(pkg) {
+		for _, b := range f.Blocks {
+			for _, ins := range b.Instrs {
+				call, ok := ins.(*ssa.Call)
+				if !ok || calleeName(call.Common()) != mod+pkg+".fillDurationValue" {
+					continue
+				}
+				sites++
+				ok = false
+				for d := b; d != nil && !ok; d = d.Idom() {
+					id := d.Idom()
+					if id == nil || len(id.Instrs) == 0 {
+						continue
+					}
+					br, isIf := id.Instrs[len(id.Instrs)-1].(*ssa.If)
+					if !isIf || !((id.Succs[0] == d || id.Succs[0].Dominates(b)) && len(id.Succs[0].Preds) == 1) {
+						continue
+					}
+					isDur := func(v ssa.Value) bool {
+						u, ok := v.(*ssa.UnOp)
+						if !ok {
+							return false
+						}
+						g, ok := u.X.(*ssa.Global)
+						return ok && g.Name() == "durationType"
+					}
+					for _, cj := range conjuncts(br.Cond) {
+						if cmp, isCmp := cj.(*ssa.BinOp); isCmp && cmp.Op == token.EQL && (isDur(cmp.X) || isDur(cmp.Y)) {
+							ok = true
+						}
+					}
+				}
+				if !ok {
+					bad = append(bad, fmt.Sprintf("%s: %s fills a duration without having compared the member's type with durationType (a kind test also matches every int64 member)", c.P.Pos(call.Pos()), funcDisplay(f)))
+				}
+			}
+		}
+	}
+	sort.Strings(bad)
+	c.R.Check(len(bad) == 0 && sites >= 3, rule, pkg+".fillDurationValue#callers", "every call of fillDurationValue is on the true outcome of `type == durationType`", "-", fmt.Sprintf("%d call sites; %s", sites, strings.Join(bad, "; ")), bad, sites)
+}
+
+// conjuncts: the conditions that all hold when v is true — v itself, or for a short-circuit `a && b` (a phi whose
+// other edges are the constant false) its operands, recursively.
+func conjuncts(v ssa.Value) []ssa.Value {
+	phi, ok := v.(*ssa.Phi)
+	if !ok {
+		return []ssa.Value{v}
+	}
+	var out []ssa.Value
+	for _, e := range phi.Edges {
+		if k, isK := e.(*ssa.Const); isK {
+			if k.Value != nil && !constant.BoolVal(k.Value) {
+				continue
+			}
+			return []ssa.Value{v}
+		}
+		// the edge's value holds; so does whatever guarded reaching that edge, which we do not need here
+		out = append(out, conjuncts(e)...)
+	}
+	return out
 }
